@@ -1,3 +1,4 @@
+CONSTANT Want = {"c02"}
 INIT TraceInit
 NEXT TraceNext
 INVARIANTS C02_Boundaries
